@@ -62,10 +62,12 @@ class Scenario:
 
 
 def gen_scenario(rng, n, epochs=2, ops_per_rank=6, sizes=(0, 8, 100, 600), ttl=2, maxfan=2, hprog=20, hcb=5, hbc=0,
-                 p_bcast=10, p_mcast=5, p_progress=8, p_mask=5, p_cb=5, p_wait=0, tail=True, uneven=True, fstate=0, subcomm=0, other=0, p_stats=0):
+                 p_bcast=10, p_mcast=5, p_progress=8, p_mask=5, p_cb=5, p_wait=0, tail=True, uneven=True, fstate=0, subcomm=0, other=0, p_stats=0, precomm=None):
     params = {"maxfan": maxfan, "hprog": hprog, "hcb": hcb, "hbc": hbc}
     if fstate:
         params["fstate"] = 1      # every message uses a function object with 8 bytes of state
+    if precomm is not None:
+        params["precomm"] = int(precomm)   # a second ygm::comm is built first under another buffer size / routing (setenv between the two)
     if subcomm:
         params["subcomm"] = 1     # ygm::comm is built on a communicator with reversed rank order
     ops = []
